@@ -299,6 +299,10 @@ def slice_(it, st, obj: V, lo, hi, node) -> V:
         if (lo_t is None or lo_c is not None) and (hi_t is None or hi_c is not None):
             items = obj.items[slice(lo_c, hi_c)]
             return VList(items) if isinstance(obj, VList) else VTuple(items)
+    if isinstance(obj, VVal):
+        # a slice of an opaque value (a memoryview, say): another opaque value, nothing assumed about it
+        st.counter += 1
+        return VVal(z3.Const(f"slice_of_opaque!{st.counter}", ValS))
     raise Unsupported(f"{it.site(node)}: slice of {obj!r}")
 
 
